@@ -16,7 +16,8 @@ from xknx.exceptions import (
 )
 from xknx.telegram import Telegram, TelegramDirection
 from xknx.telegram.address import GroupAddress, IndividualAddress, InternalGroupAddress
-from xknx.telegram.apci import GroupValueRead, GroupValueResponse, GroupValueWrite
+from xknx.telegram.apci import DeviceDescriptorRead, GroupValueRead, GroupValueResponse, GroupValueWrite
+from xknx.telegram.tpci import TDataConnected, TDataIndividual
 
 from vlib.core_harness import (
     Outcome,
@@ -88,14 +89,19 @@ def gen_case(rng: random.Random) -> dict:
     dts = (0.0, 0.0, 0.0, 0.001, step, step - 1e-4, step + 1e-4, step / 2, 0.5, CONFIRM_TIMEOUT, 5.0)
     for _ in range(n):
         kind = rng.choices(
-            ("out", "outi", "in", "ini", "bad", "join", "restart", "burst", "con", "rate"),
-            (40, 14, 18, 3, 4, 6, 5, 6, 4, 3),
+            ("out", "outi", "in", "ini", "bad", "join", "restart", "burst", "con", "rate", "outp"),
+            (40, 14, 18, 3, 4, 6, 5, 6, 4, 3, 5),
         )[0]
         ev = {"dt": rng.choice(dts), "kind": kind}
         if kind in ("out", "in", "bad"):
             ev["addr"] = rng.choice(GAS)
         elif kind in ("outi", "ini"):
             ev["addr"] = rng.choice(IGAS)
+        elif kind == "outp":
+            # point-to-point telegram (IndividualAddress destination) queued by user code / tools: only internal addresses
+            # may be withheld from the interface
+            ev["addr"] = "ia:" + rng.choice(("1.1.1", "1.1.250", "15.15.255"))
+            ev["payload"] = rng.choice(("p2p_ind", "p2p_con"))
         elif kind == "rate":
             ev["rate"] = rng.choice((0, 5, 20, 100))  # xknx.rate_limit is a public attribute: changed while the queue runs
         elif kind == "burst":
@@ -172,6 +178,8 @@ def _payload(kind: str, seq: int):
 
 
 def _addr(text: str):
+    if text.startswith("ia:"):
+        return IndividualAddress(text[3:])
     return InternalGroupAddress(text) if text.startswith("i-") else GroupAddress(text)
 
 
@@ -281,6 +289,12 @@ def execute(case: dict) -> dict:
                 t = Telegram(destination_address=_addr(addr), payload=None,
                              source_address=IndividualAddress(0x1000 + s))
                 nopayload[t.source_address.raw] = s
+            elif kind == "outp":
+                p = DeviceDescriptorRead(descriptor=0)
+                keyof[id(p)] = s
+                t = Telegram(destination_address=_addr(addr), payload=p,
+                             tpci=TDataIndividual() if pkind == "p2p_ind" else TDataConnected(sequence_number=s % 16))
+                obs["p2p"] = obs.get("p2p", 0) + 1
             else:
                 p = _payload(pkind, s)
                 keyof[id(p)] = s
@@ -493,6 +507,7 @@ def judge(ctx, case: dict, obs: dict, wit: dict) -> None:
     marks = set(obs["restart_marks"])
     ctx.count("rate_limit_changed_while_running", obs.get("rate_changes", 0))
     ctx.count("followup_telegrams_queued_by_devices", obs.get("followups", 0))
+    ctx.count("outgoing_individual_address_telegrams", obs.get("p2p", 0))
     rate_events = [(0.0, r)] + obs.get("rate_events", [])
 
     def rates_in_force(t0, t1):
@@ -595,7 +610,8 @@ def run(ctx):
                 "send_outcome_ok_con_after_timeout", "send_outcome_ok_duplicate_con", "unsolicited_or_repeated_cons",
                 "confirmation_order_checked", "release_by_con", "release_by_timeout", "release_by_send-failed",
                 "handoffs_preceded_by_a_stale_or_duplicate_con", "rate_limit_changed_while_running",
-                "spacing_checked_after_rate_limit_change", "followup_telegrams_queued_by_devices")
+                "spacing_checked_after_rate_limit_change", "followup_telegrams_queued_by_devices",
+                "outgoing_individual_address_telegrams")
     n = ctx.scale(2500, 160000)
     for i in range(n):
         if not ctx.mine(i):
